@@ -28,7 +28,7 @@ _EX_CACHE: dict = {}
 
 def Extracted(relpath, qualname):
     """Cached extraction (keyed on the override text in effect, so canaries see their own source)."""
-    key = (relpath, qualname, id(SOURCE_OVERRIDES.get(relpath)))
+    key = (relpath, qualname, hash(SOURCE_OVERRIDES.get(relpath)))
     e = _EX_CACHE.get(key)
     if e is None:
         e = _EX_CACHE[key] = _Extracted(relpath, qualname)
@@ -319,7 +319,52 @@ at._pyvc_native_ok = True
 
 
 def implies(a, b):
+    if isinstance(a, Sym) or isinstance(b, Sym):
+        def tt(v):
+            if isinstance(v, bool):
+                return z3.BoolVal(v)
+            if isinstance(v, SBool):
+                return v.e
+            raise SpecError("implies() needs boolean operands")
+        return wrap(z3.Implies(tt(a), tt(b)))
     return (not a) or b
+
+
+implies._pyvc_native_ok = True
+
+
+def forall(sortname, fn):
+    """forall("Sort", lambda x: P(x)) in contract expressions over an abstract sort (symbolic evaluation only)."""
+    if not paths.active():
+        raise SpecError("forall over an abstract sort cannot be evaluated natively")
+    k = parse_kind(sortname if sortname in ("int", "bool", "real") else "obj:" + sortname)
+    x = k.fresh("q")
+    p = paths.current()
+    p.pure += 1
+    try:
+        body = fn(x)
+    finally:
+        p.pure -= 1
+    if isinstance(body, bool):
+        return body
+    t = body.e if isinstance(body, SBool) else sym.to_z3(body)
+    p.quantified = True
+    return wrap(z3.ForAll([x.e], t))
+
+
+def exists(sortname, fn):
+    r = forall(sortname, lambda x: sym.s_not(_truthy(fn(x))))
+    return sym.s_not(r)
+
+
+def _truthy(v):
+    if isinstance(v, (bool, SBool)):
+        return v
+    raise SpecError("exists body must be boolean")
+
+
+forall._pyvc_native_ok = True
+exists._pyvc_native_ok = True
 
 
 # ------------------------------------------------------------------------------------------------
@@ -352,7 +397,9 @@ REGISTRY: dict = {}  # key "relpath:qualname" -> Contract
 class Contract:
     def __init__(self, key, prop, params=None, requires=(), ensures=(), raises=None, may_raise=None, result=None,
                  loops=None, cases=None, modifies=(), inline=(), helpers=None, standin=None, notes="", hooks=None,
-                 setup=None, env=None, pure_result=True, old=(), ghosts=None, assumes=(), uses=(), post_uses=()):
+                 setup=None, env=None, pure_result=True, old=(), ghosts=None, assumes=(), uses=(), post_uses=(), models=None, native_post=None):
+        self.models = models or {}
+        self.native_post = native_post
         self.uses = list(uses)
         self.post_uses = list(post_uses)
         self.key, self.prop = key, prop
@@ -411,7 +458,7 @@ class Contract:
         case = self.match_case(env.vars)
         p = paths.current()
         saved = interp.spec_globals
-        interp.spec_globals = dict(self.env, at=at, implies=implies)
+        interp.spec_globals = dict(self.env, at=at, implies=implies, forall=forall, exists=exists)
         for sf in self.env.values():
             if isinstance(sf, SpecFunction):
                 sf._install(p)
@@ -451,12 +498,14 @@ class Contract:
 
     def _spec_globals(self, ex):
         g = dict(ex.module().__dict__)
-        g.update({"at": at, "implies": implies})
+        g.update({"at": at, "implies": implies, "forall": forall, "exists": exists})
         g.update(self.env)
         return g
 
 
 def _snapshot(v):
+    if isinstance(v, SRec):
+        return SRec(object.__getattribute__(v, "_cls"), {k: _snapshot(x) for k, x in object.__getattribute__(v, "_fields").items()})
     if isinstance(v, SList):
         return v.v
     if isinstance(v, SMap):
@@ -684,8 +733,9 @@ def Explorer_for(contract, case, ex, reg, inline, rep):
     def run_inner(p, holder):
         interp = Interp(registry=reg, inline=inline, loop_specs=loops, hooks=contract.hooks)
         interp.current_owner = owner
+        interp.local_models = dict(contract.models)
         g = contract._spec_globals(ex)
-        interp.spec_globals = dict(contract.env, at=at, implies=implies)
+        interp.spec_globals = dict(contract.env, at=at, implies=implies, forall=forall, exists=exists)
         sym.install_pow2(p)
         for sf in contract.env.values():
             if isinstance(sf, SpecFunction):
